@@ -1320,6 +1320,7 @@ pub fn handle_trailer(
         return Err((H2Error::ProtocolError, false));
     }
     let max_header_fields = max_header_fields as usize;
+    let blocks_before_trailers = kawa.blocks.len();
     let mut invalid_trailers = false;
     let mut budget_exceeded = false;
     let mut field_limit_exceeded = false;
@@ -1490,12 +1491,22 @@ pub fn handle_trailer(
             log_module_context!()
         );
         incr!(names::h2::TRAILERS_DROPPED_CONTENT_LENGTH);
+        // ... so really drop them: left in place they are written behind the
+        // Content-Length body on an HTTP/1.1 backend connection, where they
+        // prefix the next request of that connection.
+        for block in kawa.blocks.iter_mut().skip(blocks_before_trailers) {
+            if let Block::Header(pair) = block {
+                pair.elide();
+            }
+        }
     }
 
     kawa.push_block(Block::Flags(Flags {
         end_body: false,
         end_chunk: false,
-        end_header: true,
+        // no trailer section at all behind a Content-Length body: its closing
+        // empty line would be a stray CRLF in front of the next request
+        end_header: !matches!(kawa.body_size, BodySize::Length(_)),
         end_stream: true,
     }));
     kawa.parsing_phase = ParsingPhase::Terminated;
